@@ -127,7 +127,8 @@ def program_strategy(draw, tier="quick", procs=True, futures=True, combinators=T
     initial = draw(st.lists(init, min_size=1, max_size=12 if tier == "thorough" else 8))
     return {"n": n, "nfut": nfut, "fuel": draw(st.sampled_from([2, 3, 3, 4])), "handlers": handlers, "behs": behs,
             "initial": initial, "batch": draw(st.booleans()),
-            "start": draw(st.sampled_from([0, 0, 0, 0, 1, 2]))}      # Simulation(start_time=start ticks): earlier pre-run events are not live
+            "start": draw(st.sampled_from([0, 0, 0, 0, 1, 2])),      # Simulation(start_time=start ticks): earlier pre-run events are not live
+            "dur": draw(st.booleans())}                               # give the end of the run as duration= instead of end_time= (when it is whole ticks)
 
 
 # ------------------------------------------------------------------------------ real execution
@@ -291,7 +292,11 @@ class RealRun:
         if prog.get("start"):
             kw["start_time"] = Instant(int(prog["start"]) * TICK)
         if end_ns is not None:
-            kw["end_time"] = Instant(end_ns)
+            start_ns = int(prog.get("start", 0) or 0) * TICK
+            if prog.get("dur") and end_ns >= start_ns and (end_ns - start_ns) % TICK == 0:
+                kw["duration"] = (end_ns - start_ns) / 1e9        # the same end expressed as a run length (exact: whole ticks of 1/512 s)
+            else:
+                kw["end_time"] = Instant(end_ns)
         if trace_recorder is not None:
             kw["trace_recorder"] = trace_recorder
         self.sim = Simulation(entities=list(self.ents), **kw)
